@@ -94,6 +94,10 @@ def _neighbours(v):
             except Exception:
                 pass
         res += [None, 0]
+        try:
+            res += [v.encode("utf-8"), bytearray(v.encode("utf-8"))]  # the same characters as bytes are a different value
+        except UnicodeEncodeError:
+            pass
     elif isinstance(v, int):
         res += [v + 1, v - 1, -v, str(v)]
         try:
